@@ -111,6 +111,42 @@ def g_dead_code(freq=440):
     u.Out.ar(0, u.LFPar.ar(freq) * 0.1)
 
 
+
+def g_dead_related(freq=300):
+    u = _u()
+    x = u.SinOsc.ar(freq)
+    y = u.SinOsc.ar(freq * 2)
+    z = u.SinOsc.ar(freq * 3)
+    p = x * y
+    q = p + z
+    dead = q * p        # unreferenced; its two inputs feed one another:
+    u.Out.ar(0, q)      # what is left depends on the order they are revisited
+
+
+def g_dead_web(freq=100):
+    u = _u()
+    a = u.Saw.ar(freq)
+    b = u.LFTri.ar(freq * 2)
+    c = u.Pulse.ar(freq * 3)
+    m = a * b
+    n = m + c
+    o = n * a + b
+    d1 = o * m          # three unreferenced pure ugens over shared inputs
+    d2 = n - o
+    d3 = d1 + d2 * m
+    u.Out.ar(0, [o, n])
+
+
+def g_dead_multi(freq=50):
+    u = _u()
+    src = u.SinOsc.ar([freq, freq * 2, freq * 3])
+    prod = src[0] * src[1]
+    acc = prod + src[2]
+    again = acc * prod + src[0]
+    unused = [again * acc, acc * prod, again + prod]
+    u.Out.ar(0, acc)
+
+
 CORPUS = {
     'sine': (g_sine, {}),
     'sum': (g_sum, {}),
@@ -126,6 +162,9 @@ CORPUS = {
     'controls': (g_controls, {'rates': [None, None, 0.1, 'tr', 'ar']}),
     'wrap': (g_wrap, {}),
     'dead_code': (g_dead_code, {}),
+    'dead_related': (g_dead_related, {}),
+    'dead_web': (g_dead_web, {}),
+    'dead_multi': (g_dead_multi, {}),
 }
 
 
@@ -171,5 +210,15 @@ def _sig_wrap(func, exc, fail_after):
     return ns['failing']
 
 
+def build_hex(name):
+    """Bytes of one build as hex, or 'ERR:<type>' if the build raises (a
+    build that always raises the same way is still a function of its
+    input)."""
+    try:
+        return bytes(build(name).as_bytes()).hex()
+    except Exception as e:
+        return 'ERR:' + type(e).__name__
+
+
 def pristine_all():
-    return {name: bytes(build(name).as_bytes()).hex() for name in CORPUS}
+    return {name: build_hex(name) for name in CORPUS}
